@@ -51,6 +51,7 @@ type c18Layer struct {
 	Cfg      scn.Config
 	Cache    int  // VFS.CacheSize in bytes; 0 = litestream's default (10 MB: every page read stays cached)
 	TT       bool // time-travel oracle at the end of every history (driver keeps file times >= 3 ms apart)
+	Hydrate  bool // VFS opened with background hydration into a persistent local file (reads served from it)
 	Alphabet []string
 	Depth    int
 	Seeds    [][]string
@@ -62,6 +63,9 @@ func (l c18Layer) class() string {
 	c := "dflt"
 	if l.Cache > 0 {
 		c = fmt.Sprintf("%dB", l.Cache)
+	}
+	if l.Hydrate {
+		c += "+hydrate"
 	}
 	return fmt.Sprintf("%s/l0ret%s/vfscache=%s", cfgClass(l.Cfg), map[bool]string{true: "1ns", false: "keep"}[l.Cfg.L0RetentionNS == 1], c)
 }
@@ -96,6 +100,7 @@ type c18State struct {
 	pages   int  // pages compared
 	goneObs bool // a read of a page whose file left the replica has been observed failing in this history
 	gate    *c18Gate
+	hydrate bool
 }
 
 // c18Gate wraps the VFS's replica client: when armed, the next level-0 listing with a seek position (a poll's
@@ -210,6 +215,10 @@ func (st *c18State) do(s *scn.Scn, op string) bool {
 		if st.cache > 0 {
 			v.CacheSize = st.cache
 		}
+		if st.hydrate {
+			v.HydrationEnabled = true
+			v.HydrationPath = filepath.Join(s.Dir, "vfs-hydration.db") // persistent: a later VOPEN resumes from it
+		}
 		vf, _, err := v.Open("c18.db", sqlite3vfs.OpenMainDB|sqlite3vfs.OpenReadOnly)
 		if err != nil {
 			if _, rerr := s.Restore(scn.RestoreOpt{}); rerr == nil {
@@ -220,6 +229,19 @@ func (st *c18State) do(s *scn.Scn, op string) bool {
 			return false
 		}
 		st.f = vf.(*litestream.VFSFile)
+		if st.hydrate {
+			// reads are served from the hydration file once it is complete: wait for it (bounded)
+			for i := 0; i < 5000; i++ {
+				en, done, herr := st.f.VerifHydration()
+				if !en || done || herr != nil {
+					if herr != nil {
+						st.add("vfs-hydration-failed", scn.ErrClass(herr))
+					}
+					break
+				}
+				time.Sleep(time.Millisecond)
+			}
+		}
 		st.view = st.f.Pos().TXID
 		st.lastPos = st.view
 		c18Record(s, op, fmt.Sprintf("ok pos=%d", st.view))
@@ -230,6 +252,16 @@ func (st *c18State) do(s *scn.Scn, op string) bool {
 			return false
 		}
 		st.poll(s, op)
+		return true
+	case "VCLOSE":
+		if st.f == nil || st.locked {
+			return false
+		}
+		if err := st.f.Close(); err != nil {
+			st.add("vfs-close-failed", scn.ErrClass(err))
+		}
+		st.f, st.gate = nil, nil
+		c18Record(s, op, "ok")
 		return true
 	case "VPTT":
 		// A poll with time travel switched on in the middle of it: the poll is parked at its level-0 listing,
@@ -671,7 +703,7 @@ func (hc *c18Check) exec2(l c18Layer, hist []string) (legal bool, probs []*scn.P
 		return false, nil, nil, "", "", nil, err
 	}
 	defer s.Destroy()
-	st := &c18State{arch: newArchive(), cache: l.Cache, seen: map[string]bool{}, notes: map[string]bool{}, ats: map[string]string{}}
+	st := &c18State{arch: newArchive(), cache: l.Cache, hydrate: l.Hydrate, seen: map[string]bool{}, notes: map[string]bool{}, ats: map[string]string{}}
 	s.User = st
 	defer st.close()
 	if l.TT {
@@ -954,6 +986,10 @@ func c18(args []string) int {
 		{Name: "seeded/4096-none/cache1", Cfg: n4096, Cache: one(n4096), Alphabet: aPoll, Depth: d(2, 3), Seeds: sNone},
 		{Name: "polls/512-none/cache-default", Cfg: n512, Alphabet: aPoll, Depth: d(3, 5), Seeds: sPoll},
 		{Name: "polls/512-incr/cache1", Cfg: i512, Cache: one(i512), Alphabet: aPollI, Depth: d(3, 5), Seeds: sPoll},
+		// background hydration into a persistent local file: reads come from that file; a reopened reader resumes
+		// from it and catches up with what was replicated while it was closed
+		{Name: "hydrated/512-none/reopen", Cfg: n512, Hydrate: true, Alphabet: sub("VOPEN VCLOSE VPOLL W1 U SW"), Depth: d(3, 4),
+			Seeds: seeds("W3 SW VOPEN VCLOSE U SW W1 SW", "W3 SW W1 SW VOPEN W1 SW VPOLL VCLOSE U SW", "W3 W3 SW VOPEN D VAC SW VPOLL VCLOSE W1 SW")},
 		{Name: "time-travel/512-none/set-during-poll", Cfg: n512, Alphabet: sub("VPTT W1 SW VPOLL"), Depth: d(2, 3),
 			Seeds: seeds("W1 SW W1 SW W1 SW VOPEN W1 SW W1 SW", "W1 SW W3 SW VOPEN D VAC SW W1 SW")},
 		{Name: "time-travel/512-none", Cfg: n512, Cache: one(n512), TT: true, Alphabet: aTT, Depth: d(1, 3), Seeds: sTT},
